@@ -91,6 +91,15 @@ def c01_probes() -> list[Item]:
                    ("PUSH", 20), ("PUSH", 0), "CALLDATALOAD", "GT", ("PUSHL", "a"), "JUMPI", ("PUSH", 0xB)] + RET + [("LABEL", "a"), ("PUSH", 0xA)] + RET,
                   inputs=[{"cd0": 5, "cd1": 0}, {"cd0": 15, "cd1": 0}, {"cd0": 25, "cd1": 0}, {"cd0": 2**255, "cd1": 0}, {"cd0": 20, "cd1": 0}]))
     # a loop whose head is the JUMPDEST at pc 0: the backward JUMP must land there
+    # a callee that returns (or reverts with) fewer bytes than the caller's output area leaves the rest of the area as it was
+    short_ret = assemble([("PUSH", 0x1111), ("PUSH", 0), "MSTORE", ("PUSH", 32), ("PUSH", 0), "RETURN"])
+    short_rev = assemble([("PUSHN", 4, 0xDEADBEEF), ("PUSH", 0), "MSTORE", ("PUSH", 4), ("PUSH", 28), "REVERT"])
+    for nm, cal in (("return", short_ret), ("revert", short_rev)):
+        out.append(_p(f"short-{nm}-keeps-output-area",
+                      [("PUSH", 0), "CALLDATALOAD", ("PUSH", 0x40), "MSTORE", ("PUSH", 32), "CALLDATALOAD", ("PUSH", 0x60), "MSTORE",
+                       ("PUSH", 64), ("PUSH", 0x40), ("PUSH", 0), ("PUSH", 0), ("PUSH", 0), ("PUSH", CALLEE), ("PUSH", 0xFFFFF), "CALL", ("PUSH", 0x80), "MSTORE",
+                       ("PUSH", 0x60), ("PUSH", 0x40), "RETURN"],
+                      accounts={CALLEE: cal}, inputs=[{"cd0": 0, "cd1": 0}, {"cd0": 7, "cd1": 9}, {"cd0": (1 << 256) - 1, "cd1": 1 << 255}]))
     out += c02_probes()
     out.append(_p("loop-head-at-pc0",
                   [("LABEL", "h"), ("PUSH", 0), "MLOAD", ("PUSHL", "x"), "JUMPI", ("PUSH", 1), ("PUSH", 0), "MSTORE", ("PUSHL", "h"), "JUMP", "INVALID",
